@@ -8,7 +8,29 @@ ALL = [f"C{i:02d}" for i in range(1, 21)]
 
 def hook_commits():
     out = subprocess.run(["git", "-C", "/repo", "log", "--format=%H %s"], stdout=subprocess.PIPE, text=True).stdout
-    return [l.split()[0] for l in out.splitlines() if "verif feature" in l]
+    return [l.split()[0] for l in out.splitlines() if "verif feature" in l or l.split(" ", 1)[1].startswith("verif hook")]
+
+TECH = {
+    "C01": "runtime monitoring: totality under catch_unwind + hooked step count per call against the linear bound",
+    "C02": "runtime monitoring: input/output observer with exact rational recount of the padding budgets",
+    "C03": "runtime monitoring: input/output observer with exact recount of blocked time on a virtual clock",
+    "C04": "runtime monitoring: invariant check on every returned action set",
+    "C05": "runtime monitoring: trace conformance of the hooked step log against an executable reference semantics, bounded-exhaustive over small machines + random; lock-step determinism check",
+    "C06": "runtime monitoring: exhaustive enumeration of the 2^23-value draw space per probability vector, counts compared with exact shares",
+    "C07": "runtime monitoring: trace specification over the hooked step log (state, remaining limit)",
+    "C08": "runtime monitoring: per-machine counter monitor over the hooked step log",
+    "C09": "runtime monitoring: per-call signal delivery monitor over the hooked step log",
+    "C10": "runtime monitoring: differential execution (combined vs solo run on the projected history)",
+    "C11": "runtime monitoring: round-trip and mutation workload under catch_unwind with a counting allocator measuring peak heap",
+    "C12": "runtime monitoring: independent well-formedness predicate vs every validation path over an exhaustive special-value matrix + random",
+    "C13": "runtime monitoring: scripted-RNG sampling under catch_unwind, draw budget and heartbeat-supervised workers",
+    "C14": "runtime monitoring: offline checker over the simulator's returned event trace",
+    "C15": "runtime monitoring: offline matching checker over the simulator's returned event trace",
+    "C16": "runtime monitoring: offline checker over merged event trace + hooked action/fire logs (blocking)",
+    "C17": "runtime monitoring: offline checker over merged event trace + hooked action/fire logs (action timers)",
+    "C18": "runtime monitoring: offline checker over merged event trace + hooked action/fire logs (internal timers)",
+    "C19": "runtime monitoring: replay equality, projection and bound checks over returned traces under catch_unwind",
+}
 
 checks = []
 for pid in ALL:
@@ -30,7 +52,7 @@ for pid in ALL:
         },
         "level_note": s.get("level_note", "Trusted: the harness generators and monitors, rustc, the hooks being observation-only. "
                             "Verdict limited to the generated cases; coverage floors make under-reach inconclusive."),
-        "technique": s.get("technique", "runtime monitoring: monitor over hooked state / event log"),
+        "technique": s.get("technique", TECH.get(pid, "runtime monitoring: monitor over hooked state / event log")),
     })
 na = [{"property_id": pid, "reason": "check not built yet in this session (work in progress; the design claims it)"}
       for pid in ALL if pid not in PROPS]
